@@ -11,7 +11,7 @@ from gen import spacegroups as sg
 from props import sdm_common as sc
 
 THEOREMS = ['C13_min_image_spacing', 'C13_component_bound', 'C13_wrap1_of_small', 'C13_wrap1_range', 'C13_pair_min_correct', 'C13_bond_rule', 'C13_min_image', 'C13_vlen_is_cell_norm',
-            'C13_wrapped_is_shortest', 'C13_vlen_matches_traced', 'C13_cubic_lattice_bound']
+            'C13_wrapped_is_shortest', 'C13_vlen_matches_traced', 'C13_cubic_lattice_bound', 'C13_molindex_components', 'C13_molindex_example']
 GEN_FILES = ['K_cell']
 
 
@@ -149,7 +149,7 @@ def run(ctx):
     ctx.assumptions += ['the operator list iterated over is the subject of C11 (here taken from the implementation)',
                         'rounding is not modelled in the theorems; the float instance of the model is executed on the same doubles (PrimFloat, bit-level mirror up to pow/sum differences, tolerance 2^-30)',
                         'reported distances carry the library\'s +0.0001 bias for operators other than the identity (tolerance 2.5e-4 against the true minimum)',
-                        'molecule numbering is not proved: checked against a union-find reference per sample']
+                        'molecule numbering: proved for the model (C13_molindex_components: termination within the fuel, every atom numbered, same number <=> connected by bonded pairs); the model\'s numbers are compared exactly with Atom.molindex on every structure, and the implementation additionally with a union-find reference']
 
 
 def replay(ctx, rp):
